@@ -1235,7 +1235,7 @@ class DotProductAttentionPlugin(PrimitiveLeafPlugin):
                 getattr(mask_var.aval, "dtype", np.bool_)
             )
             if mask_dtype != np.bool_:
-                mask_bool = _builder_tensor_op(
+                user_mask_bool = _builder_tensor_op(
                     ctx,
                     "Cast",
                     [mask_val],
@@ -1244,9 +1244,23 @@ class DotProductAttentionPlugin(PrimitiveLeafPlugin):
                     shape=mask_dims_tuple,
                     attributes={"to": int(ir.DataType.BOOL.value)},
                 )
-                _stamp_type_and_shape(mask_bool, mask_dims_sym)
+                _stamp_type_and_shape(user_mask_bool, mask_dims_sym)
             else:
-                mask_bool = mask_val
+                user_mask_bool = mask_val
+            if mask_bool is None:
+                mask_bool = user_mask_bool
+            else:
+                # a local window was requested as well: both masks apply
+                mask_bool = _logical_and(
+                    ctx,
+                    mask_bool,
+                    user_mask_bool,
+                    base="dpa_window_and_mask",
+                    shape_hint=(batch_dim_i, num_heads_i, q_len_i, k_len_i),
+                )
+                _stamp_type_and_shape(
+                    mask_bool, (batch_dim_i, num_heads_i, q_len_i, k_len_i)
+                )
 
         if length_mask_bool is not None:
             if mask_bool is None:
@@ -1493,8 +1507,9 @@ class DotProductAttentionPlugin(PrimitiveLeafPlugin):
 
                 if query_seq_lengths is not None or key_value_seq_lengths is not None:
                     batch_size = q.shape[0]
-                    q_len = q.shape[2]
-                    k_len = k.shape[2]
+                    # operands are laid out (batch, length, heads, head_dim)
+                    q_len = q.shape[1]
+                    k_len = k.shape[1]
                     if query_seq_lengths is None:
                         query_seq_lengths = jnp.full(
                             (batch_size,), q_len, dtype=jnp.int32
